@@ -110,6 +110,37 @@ fn oracle_info(i: &ServerInfo, complete: bool, ctx: &str, o: &mut Oracle) {
     }
 }
 
+/// Independent decode of the address lists (literal record sizes, endianness and IPv4-mapping
+/// prefix written here, not taken from the crate): the answer of the library must be this.
+fn oracle_list(bs: &[u8], line: &str, o: &mut Oracle) {
+    let mut it = line.split(' ');
+    let kind = it.next().unwrap_or("");
+    let (payload, rec) = match kind {
+        "list5" => (&bs[14..], 6usize),
+        "list6" => (&bs[14..], 18),
+        "list7" => (&bs[17..], 18),
+        _ => return,
+    };
+    let got = line.rsplit(' ').next().unwrap_or("");
+    let mut want: Vec<String> = vec![];
+    for r in payload.chunks_exact(rec) {
+        if rec == 6 {
+            want.push(format!("4:{}:{}", to_hex(&r[..4]), r[4] as u32 + 256 * r[5] as u32));
+        } else {
+            let port = 256 * r[16] as u32 + r[17] as u32;
+            if r[..12] == [0, 0, 0, 0, 0, 0, 0, 0, 0, 0, 0xff, 0xff] {
+                want.push(format!("4:{}:{}", to_hex(&r[12..16]), port));
+            } else {
+                want.push(format!("6:{}:{}", to_hex(&r[..16]), port));
+            }
+        }
+    }
+    let want = list_str(want);
+    if got != want && o.fails.len() < 200 {
+        o.fail("C18/list-decode", format!("datagram={} got={} want={}", to_hex(bs), got, want));
+    }
+}
+
 // ---------------------------------------------------------------------------------------------
 // p
 
@@ -169,6 +200,7 @@ fn run_parse(bs: &[u8], o: &mut Oracle) -> String {
         }
         Ok((line, sub, sub_complete)) => {
             o.count(line.split(' ').next().unwrap_or("?"));
+            oracle_list(bs, &line, o);
             for i in &sub {
                 oracle_info(i, false, "parse", o);
             }
@@ -465,6 +497,353 @@ fn run_sweep(t: &[&str], o: &mut Oracle) -> String {
     }
 }
 
+// ---------------------------------------------------------------------------------------------
+// e: structured info -> reference encoding -> parse; representability checker; round trip
+
+#[derive(Clone, Debug, PartialEq, Eq, PartialOrd, Ord)]
+struct RClient {
+    name: Vec<u8>,
+    clan: Vec<u8>,
+    country: i64,
+    score: i64,
+    flags: i64,
+}
+
+#[derive(Clone, Debug)]
+struct RInfo {
+    ver: String,
+    token: i64,
+    version: Vec<u8>,
+    name: Vec<u8>,
+    hostname: Option<Vec<u8>>,
+    map: Vec<u8>,
+    crc: Option<u64>,
+    size: Option<u64>,
+    game_type: Vec<u8>,
+    flags: i64,
+    progression: Option<i64>,
+    skill: Option<i64>,
+    np: i64,
+    mp: i64,
+    nc: i64,
+    mc: i64,
+    clients: Vec<RClient>,
+}
+
+fn opt_s<T, F: Fn(&str) -> T>(s: &str, f: F) -> Option<T> {
+    if s == "~" {
+        None
+    } else {
+        Some(f(s))
+    }
+}
+
+fn parse_rinfo(s: &str) -> RInfo {
+    let f: Vec<&str> = s.split('|').collect();
+    assert_eq!(f.len(), 17, "info fields");
+    let hx = |x: &str| parse_hex(x).expect("hex");
+    let int = |x: &str| x.parse::<i64>().expect("int");
+    let clients = if f[16] == "-" {
+        vec![]
+    } else {
+        f[16]
+            .split(';')
+            .map(|c| {
+                let p: Vec<&str> = c.split('/').collect();
+                RClient { name: hx(p[0]), clan: hx(p[1]), country: int(p[2]), score: int(p[3]), flags: int(p[4]) }
+            })
+            .collect()
+    };
+    RInfo {
+        ver: f[0].to_string(),
+        token: int(f[1]),
+        version: hx(f[2]),
+        name: hx(f[3]),
+        hostname: opt_s(f[4], hx),
+        map: hx(f[5]),
+        crc: opt_s(f[6], |x| x.parse::<u64>().expect("crc")),
+        size: opt_s(f[7], |x| x.parse::<u64>().expect("size")),
+        game_type: hx(f[8]),
+        flags: int(f[9]),
+        progression: opt_s(f[10], int),
+        skill: opt_s(f[11], int),
+        np: int(f[12]),
+        mp: int(f[13]),
+        nc: int(f[14]),
+        mc: int(f[15]),
+        clients,
+    }
+}
+
+fn rinfo_str(i: &RInfo, clients: &[RClient]) -> String {
+    let cl = if clients.is_empty() {
+        "-".to_string()
+    } else {
+        clients
+            .iter()
+            .map(|c| format!("{}/{}/{}/{}/{}", to_hex(&c.name), to_hex(&c.clan), c.country, c.score, c.flags))
+            .collect::<Vec<_>>()
+            .join(";")
+    };
+    [
+        i.ver.clone(),
+        i.token.to_string(),
+        to_hex(&i.version),
+        to_hex(&i.name),
+        opt(&i.hostname, |h| to_hex(h)),
+        to_hex(&i.map),
+        opt(&i.crc, |x| x.to_string()),
+        opt(&i.size, |x| x.to_string()),
+        to_hex(&i.game_type),
+        i.flags.to_string(),
+        opt(&i.progression, |x| x.to_string()),
+        opt(&i.skill, |x| x.to_string()),
+        i.np.to_string(),
+        i.mp.to_string(),
+        i.nc.to_string(),
+        i.mc.to_string(),
+        cl,
+    ]
+    .join("|")
+}
+
+struct VerFeat {
+    name: &'static str,
+    hostname: bool,
+    progression: bool,
+    skill: bool,
+    offset: bool,
+    ext_player: bool,
+    ext_map: bool,
+    extra: bool,
+    full_flags: bool,
+    max_clients: Option<i64>,
+}
+
+/// the per-version wire layout, written down here independently of the crate
+fn feat(k: K) -> VerFeat {
+    let base = VerFeat { name: "", hostname: false, progression: false, skill: false, offset: false, ext_player: true, ext_map: false, extra: false, full_flags: false, max_clients: Some(16) };
+    match k {
+        K::I5 => VerFeat { name: "V5", progression: true, ext_player: false, ..base },
+        K::I6 => VerFeat { name: "V6", ..base },
+        K::I6Dp => VerFeat { name: "V6Ddper", ..base },
+        K::I664 => VerFeat { name: "V664", offset: true, max_clients: Some(64), ..base },
+        K::I6Ex | K::I6More => VerFeat { name: "V6Ex", ext_map: true, extra: true, max_clients: None, ..base },
+        K::I7 => VerFeat { name: "V7", hostname: true, skill: true, full_flags: true, max_clients: Some(64), ..base },
+    }
+}
+
+fn put_int(k: K, v: i64, out: &mut Vec<u8>) {
+    if k == K::I7 {
+        out.extend(varint(v as i32));
+    } else {
+        out.extend(v.to_string().into_bytes());
+        out.push(0);
+    }
+}
+
+fn put_str(s: &[u8], out: &mut Vec<u8>) {
+    out.extend_from_slice(s);
+    out.push(0);
+}
+
+fn put_clients(k: K, cs: &[RClient], out: &mut Vec<u8>) {
+    let ft = feat(k);
+    for c in cs {
+        put_str(&c.name, out);
+        if ft.ext_player {
+            put_str(&c.clan, out);
+            put_int(k, c.country, out);
+        }
+        put_int(k, c.score, out);
+        if ft.ext_player {
+            if ft.full_flags {
+                put_int(k, c.flags, out);
+            } else {
+                put_int(k, if c.flags == 1 { 0 } else { 1 }, out);
+            }
+        }
+        if ft.extra {
+            put_str(b"", out);
+        }
+    }
+}
+
+/// the reference encoder (mirror of `encInfo` / `encMore` in lean/Tw/Model/ServerBrowseEnc.lean)
+fn enc_rinfo(k: K, n: u64, i: &RInfo) -> Vec<u8> {
+    let ft = feat(k);
+    let mut o: Vec<u8> = vec![];
+    put_int(k, i.token, &mut o);
+    if k == K::I6More {
+        put_int(k, n as i64, &mut o);
+        put_str(b"", &mut o);
+        put_clients(k, &i.clients, &mut o);
+        return o;
+    }
+    put_str(&i.version, &mut o);
+    put_str(&i.name, &mut o);
+    if ft.hostname {
+        put_str(i.hostname.as_deref().unwrap_or(b""), &mut o);
+    }
+    put_str(&i.map, &mut o);
+    if ft.ext_map {
+        let c = i.crc.unwrap_or(0) as i128;
+        let wire = if c < (1 << 31) { c } else { c - (1i128 << 32) };
+        put_int(k, wire as i64, &mut o);
+        put_int(k, i.size.unwrap_or(0) as i64, &mut o);
+    }
+    put_str(&i.game_type, &mut o);
+    put_int(k, i.flags, &mut o);
+    if ft.progression {
+        put_int(k, i.progression.unwrap_or(0), &mut o);
+    }
+    if ft.skill {
+        put_int(k, i.skill.unwrap_or(0), &mut o);
+    }
+    put_int(k, i.np, &mut o);
+    put_int(k, i.mp, &mut o);
+    if ft.ext_player {
+        put_int(k, i.nc, &mut o);
+        put_int(k, i.mc, &mut o);
+    }
+    if ft.offset {
+        put_int(k, n as i64, &mut o);
+    }
+    if ft.extra {
+        put_str(b"", &mut o);
+    }
+    put_clients(k, &i.clients, &mut o);
+    o
+}
+
+fn in_i32(v: i64) -> bool {
+    v >= i32::MIN as i64 && v <= i32::MAX as i64
+}
+
+fn good_str(cap: usize, s: &[u8]) -> bool {
+    !s.contains(&0) && std::str::from_utf8(s).is_ok() && s.len() <= cap
+}
+
+fn client_ok(k: K, c: &RClient) -> bool {
+    let ft = feat(k);
+    good_str(15, &c.name)
+        && in_i32(c.score)
+        && if ft.ext_player {
+            good_str(11, &c.clan) && in_i32(c.country) && if ft.full_flags { in_i32(c.flags) } else { c.flags == 0 || c.flags == 1 }
+        } else {
+            c.clan.is_empty() && c.country == -1 && c.flags == 0
+        }
+}
+
+/// representability (mirror of `representableB` / `representableMoreB`)
+fn representable(k: K, n: u64, i: &RInfo) -> bool {
+    let ft = feat(k);
+    if k == K::I6More {
+        return in_i32(i.token) && n >= 1 && n < 64 && i.clients.iter().all(|c| client_ok(k, c));
+    }
+    i.ver == ft.name
+        && in_i32(i.token)
+        && good_str(32, &i.version)
+        && good_str(64, &i.name)
+        && good_str(32, &i.map)
+        && good_str(32, &i.game_type)
+        && in_i32(i.flags)
+        && (if ft.hostname { i.hostname.as_ref().map(|h| good_str(64, h)).unwrap_or(false) } else { i.hostname.is_none() })
+        && (if ft.ext_map { matches!((i.crc, i.size), (Some(c), Some(s)) if c < (1 << 32) && s < (1 << 31)) } else { i.crc.is_none() && i.size.is_none() })
+        && (if ft.progression { i.progression.map(in_i32).unwrap_or(false) } else { i.progression.is_none() })
+        && (if ft.skill { i.skill.map(in_i32).unwrap_or(false) } else { i.skill.is_none() })
+        && 0 <= i.np
+        && i.np <= i.nc
+        && i.nc <= i.mc
+        && 0 <= i.mp
+        && i.mp <= i.mc
+        && ft.max_clients.map(|m| i.mc <= m).unwrap_or(true)
+        && in_i32(i.mc)
+        && (ft.ext_player || (i.nc == i.np && i.mc == i.mp))
+        && (if ft.offset { n < (1 << 31) } else { n == 0 })
+        && i.clients.iter().all(|c| client_ok(k, c))
+        && (k != K::I664 || n as usize + i.clients.len() <= 64)
+}
+
+fn run_encode(t: &[&str], o: &mut Oracle) -> String {
+    let kc = t[0];
+    let k = kind_of_char(kc);
+    let n: u64 = t[1].parse().expect("n");
+    let i = parse_rinfo(t[2]);
+    let bytes = enc_rinfo(k, n, &i);
+    let rep = representable(k, n, &i);
+    let res = match catch(|| {
+        let mut sub = Oracle::new();
+        let r = info_result(kc, &bytes, &mut sub);
+        (r, sub)
+    }) {
+        Ok((r, sub)) => {
+            for (_, tag, msg) in sub.fails {
+                o.fail(&tag, msg);
+            }
+            r
+        }
+        Err(msg) => {
+            o.fail("C18/parse-panic", format!("{} payload={}", msg, to_hex(&bytes)));
+            "panic".to_string()
+        }
+    };
+    // the round trip on the implementation: a representable info comes back as it was sent
+    let rt = if rep {
+        let mut sorted = i.clients.clone();
+        sorted.sort();
+        let want = match k {
+            K::I6More => format!("part {} none", i.token),
+            K::I664 | K::I6Ex => {
+                if i.clients.len() as i64 == i.nc {
+                    format!("part {} some {}", i.token, rinfo_str(&i, &sorted))
+                } else {
+                    format!("part {} none", i.token)
+                }
+            }
+            _ => format!("some {}", rinfo_str(&i, &sorted)),
+        };
+        if res == want {
+            "ok"
+        } else {
+            o.fail("C18/encode-roundtrip", format!("kind={} n={} info={} got={} want={}", kc, n, t[2], res, want));
+            "BAD"
+        }
+    } else {
+        "-"
+    };
+    o.count(if rep { "encode_representable" } else { "encode_other" });
+    format!("{} {} {} {}", to_hex(&bytes), if rep { 1 } else { 0 }, res, rt)
+}
+
+/// `hp`: whole datagrams through parse_response, hashed
+fn run_sweep_parse(t: &[&str], o: &mut Oracle) -> String {
+    let pre = parse_hex(t[0]).expect("hex");
+    let suf = parse_hex(t[1]).expect("hex");
+    let alpha = parse_hex(t[2]).expect("hex");
+    let maxlen: u32 = t[3].parse().expect("maxlen");
+    let n = alpha.len() as u64;
+    let mut h = FNV_OFFSET;
+    let mut cnt = 0u64;
+    let mut buf: Vec<u8> = vec![];
+    for len in 0..=maxlen {
+        for c in 0..n.pow(len) {
+            buf.clear();
+            buf.extend_from_slice(&pre);
+            for j in 0..len {
+                buf.push(alpha[((c / n.pow(len - 1 - j)) % n) as usize]);
+            }
+            buf.extend_from_slice(&suf);
+            let s = run_parse(&buf, o);
+            h = fnv_bytes(h, s.as_bytes());
+            h = fnv_byte(h, 10);
+            cnt += 1;
+        }
+    }
+    o.add("datagrams_swept", cnt);
+    format!("h {}", h)
+}
+
 fn kind_of_char(k: &str) -> K {
     match k {
         "5" => K::I5,
@@ -537,6 +916,8 @@ impl Runner for R {
             ["p", h] => run_parse(&parse_hex(h).expect("hex"), o),
             ["hs", rest @ ..] if rest.len() == 5 => run_sweep(rest, o),
             ["hc", rest @ ..] if rest.len() == 4 => run_counts(rest, o),
+            ["hp", rest @ ..] if rest.len() == 4 => run_sweep_parse(rest, o),
+            ["e", rest @ ..] if rest.len() == 3 => run_encode(rest, o),
             [op @ ("m" | "mf" | "mh" | "mfh"), rest @ ..] if !rest.is_empty() => run_merge(op, rest, o),
             _ => "bad-op".to_string(),
         }
@@ -967,6 +1348,160 @@ fn packet_nos(rng: &mut Rng, nparts: usize, max_no: i32) -> Vec<i32> {
     nos
 }
 
+/// a valid UTF-8, NUL-free text of at most `cap` bytes; `full`: as close to the capacity as possible
+fn fit_text(rng: &mut Rng, cap: usize, full: bool) -> Vec<u8> {
+    let mut v: Vec<u8> = vec![];
+    let target = if full { cap } else { rng.below(cap as u64 + 1) as usize };
+    for _ in 0..200 {
+        let a: &[u8] = *rng.pick(NAME_ALPHABET);
+        if v.len() + a.len() <= target {
+            v.extend_from_slice(a);
+        } else if !full {
+            break;
+        }
+    }
+    v
+}
+
+fn edge_i32(rng: &mut Rng) -> i64 {
+    match rng.below(6) {
+        0 => i32::MIN as i64,
+        1 => i32::MAX as i64,
+        2 => -1,
+        3 => 0,
+        _ => rng.next() as i32 as i64,
+    }
+}
+
+/// An info that is representable in kind `k` by construction (`HeadOk`/`ClientOk` hold), with the
+/// offset / packet number to send it with.
+fn gen_rinfo(rng: &mut Rng, k: K, ncl: usize) -> (RInfo, u64) {
+    let ft = feat(k);
+    let full = rng.chance(1, 4);
+    let clients: Vec<RClient> = (0..ncl)
+        .map(|_| RClient {
+            name: fit_text(rng, 15, full),
+            clan: if ft.ext_player { fit_text(rng, 11, full) } else { vec![] },
+            country: if ft.ext_player { if rng.chance(1, 2) { edge_i32(rng) } else { rng.range(-1, 900) } } else { -1 },
+            score: if rng.chance(1, 3) { edge_i32(rng) } else { rng.range(-10, 1000) },
+            flags: if !ft.ext_player { 0 } else if ft.full_flags { if rng.chance(1, 3) { edge_i32(rng) } else { rng.below(4) as i64 } } else { rng.below(2) as i64 },
+        })
+        .collect();
+    let vermax = ft.max_clients.unwrap_or(if rng.chance(1, 4) { i32::MAX as i64 } else { 300 });
+    let nc: i64 = if k == K::I6More {
+        0
+    } else if rng.chance(4, 5) {
+        (ncl as i64).min(vermax)
+    } else {
+        rng.range(0, vermax.min(80))
+    };
+    let mc = if rng.chance(1, 3) { vermax } else { rng.range(nc, vermax.min(nc + 40).max(nc)) };
+    let mut np = if rng.chance(1, 3) { nc } else { rng.range(0, nc) };
+    let mut mp = if rng.chance(1, 3) { mc } else { rng.range(0, mc) };
+    if !ft.ext_player {
+        np = nc;
+        mp = mc;
+    }
+    let n: u64 = match k {
+        K::I664 => {
+            let room = 64usize.saturating_sub(ncl) as u64;
+            if rng.chance(1, 3) { room } else { rng.below(room + 1) }
+        }
+        K::I6More => *rng.pick(&[1u64, 2, 31, 32, 33, 62, 63]),
+        _ => 0,
+    };
+    let i = RInfo {
+        ver: ft.name.to_string(),
+        token: edge_i32(rng),
+        version: fit_text(rng, 32, full),
+        name: fit_text(rng, 64, full),
+        hostname: if ft.hostname { Some(fit_text(rng, 64, full)) } else { None },
+        map: fit_text(rng, 32, full),
+        crc: if ft.ext_map { Some(*rng.pick(&[0u64, 1, 0x7fffffff, 0x80000000, 0xffffffff, 0x12345678, 0xdeadbeef])) } else { None },
+        size: if ft.ext_map { Some(*rng.pick(&[0u64, 1, 627272, 0x7fffffff])) } else { None },
+        game_type: fit_text(rng, 32, full),
+        flags: edge_i32(rng),
+        progression: if ft.progression { Some(edge_i32(rng)) } else { None },
+        skill: if ft.skill { Some(edge_i32(rng)) } else { None },
+        np,
+        mp,
+        nc,
+        mc,
+        clients,
+    };
+    if k == K::I6More {
+        // only token and clients travel in an `iex+` packet
+        let d = RInfo { version: vec![], name: vec![], map: vec![], game_type: vec![], crc: None, size: None, flags: 0, np: 0, mp: 0, nc: 0, mc: 0, ..i };
+        return (d, n);
+    }
+    (i, n)
+}
+
+/// one deliberate violation of representability (the result is still encodable text-wise)
+fn perturb(rng: &mut Rng, k: K, i: &mut RInfo, n: &mut u64) {
+    let ft = feat(k);
+    let v7 = k == K::I7;
+    match rng.below(16) {
+        0 => i.name.extend_from_slice(&vec![b'x'; 65]),
+        1 => i.map.extend_from_slice(b"\xf0\x9f\x98\x80\xf0\x9f\x98\x80\xf0\x9f\x98\x80\xf0\x9f\x98\x80\xf0\x9f\x98\x80\xf0\x9f\x98\x80\xf0\x9f\x98\x80\xf0\x9f\x98\x80\xc3\xa9"),
+        2 => i.game_type.push(0xff),
+        3 => i.version.insert(0, 0),
+        4 => i.mc = ft.max_clients.unwrap_or(i32::MAX as i64 - 1) + 1,
+        5 => i.np = i.nc + 1,
+        6 => i.mp = i.mc + 1,
+        7 => i.np = -1,
+        8 => {
+            if let Some(c) = i.clients.first_mut() {
+                c.flags = if v7 { 5 } else { 2 };
+                c.name.extend_from_slice(b"0123456789abcdefg");
+            } else {
+                i.nc = -1;
+            }
+        }
+        9 => {
+            if let Some(c) = i.clients.last_mut() {
+                c.clan.extend_from_slice(b"\xe2\x82\xac\xe2\x82\xac\xe2\x82\xac\xe2\x82\xac");
+            } else {
+                i.mc = -1;
+            }
+        }
+        10 => i.hostname = if ft.hostname { None } else { Some(b"h".to_vec()) },
+        11 => {
+            if ft.ext_map {
+                i.crc = Some(1 << 32);
+            } else {
+                i.crc = Some(5);
+            }
+        }
+        12 => {
+            if ft.ext_map {
+                i.size = Some(1 << 31);
+            } else {
+                i.progression = if ft.progression { None } else { Some(1) };
+            }
+        }
+        13 => {
+            if !v7 {
+                i.token = 1 << 31;
+            } else {
+                i.skill = None;
+            }
+        }
+        14 => match k {
+            K::I664 => *n = 65 - (i.clients.len() as u64).min(65),
+            K::I6More => *n = *rng.pick(&[0u64, 64, 65]),
+            _ => *n = 1,
+        },
+        _ => {
+            if !ft.ext_player {
+                i.nc = i.np + 1;
+            } else {
+                i.ver = "V5".to_string();
+            }
+        }
+    }
+}
+
 impl Domain for D {
     fn runner(&self) -> Box<dyn Runner> {
         Box::new(R)
@@ -1230,6 +1765,77 @@ impl Domain for D {
             let mut pre = name_pre.to_vec();
             pre.extend(vec![b'x'; fill]);
             writeln!(w, "hs 6 {} {} {} {}", to_hex(&pre), to_hex(b"\0\00\01\01\0"), to_hex(b"a\xc3\xa9\xe2\x82\xac\xf0\x9f\x98\x80"), if thorough { 6 } else { 4 }).unwrap();
+        }
+
+        // ---- encoder-based: infos that are representable by construction (all kinds, boundary values,
+        // strings exactly at their capacity, up to 64 clients), one in four deliberately perturbed
+        {
+            let per_kind = if thorough { 3000 } else { 300 };
+            for &k in KINDS {
+                for j in 0..per_kind {
+                    let ncl = match j % 10 {
+                        0 => 0,
+                        1 => 1,
+                        2 => if k == K::I664 || k == K::I7 { 64 } else if k == K::I6Ex || k == K::I6More { 40 } else { 16 },
+                        _ => rng.below(6) as usize,
+                    };
+                    let (mut i, mut n) = gen_rinfo(&mut rng, k, ncl);
+                    if j % 4 == 3 {
+                        perturb(&mut rng, k, &mut i, &mut n);
+                    }
+                    writeln!(w, "e {} {} {}", kind_char(k), n, rinfo_str(&i, &i.clients)).unwrap();
+                }
+            }
+        }
+
+        // ---- master-server kinds in hash form: every payload over boundary alphabets
+        {
+            let all: Vec<u8> = (0..=255u8).collect();
+            let tok = |h: &[u8], lo: usize, hi: usize, rng: &mut Rng| {
+                let mut v = h.to_vec();
+                for b in &mut v[lo..hi] {
+                    *b = rng.next() as u8;
+                }
+                v
+            };
+            // count / count7: every payload of 0..2 bytes (all 65 536 values), longer ones over 4 bytes
+            writeln!(w, "hp {} - {} 2", to_hex(sb::COUNT), to_hex(&all)).unwrap();
+            writeln!(w, "hp {} - {} 2", to_hex(&tok(sb::COUNT_7, 1, 9, &mut rng)), to_hex(&all)).unwrap();
+            writeln!(w, "hp {} - 00017f80ff 5", to_hex(sb::COUNT)).unwrap();
+            // token7: payload lengths 0..6, and every value of our token's first two bytes
+            writeln!(w, "hp {} - 0001807fff 6", to_hex(&tok(sb::TOKEN_7, 3, 7, &mut rng))).unwrap();
+            writeln!(w, "hp 040000 {} {} 2", to_hex(&[0x33, 0x44, 0x05, 1, 2, 3, 4, 5]), to_hex(&all)).unwrap();
+            // list5: records of 6 bytes (address bytes and both port bytes over boundary values),
+            // lengths 0..8 cover the empty list, a partial record, one record, one record + rest
+            writeln!(w, "hp {} - 0001ff 8", to_hex(sb::LIST_5)).unwrap();
+            writeln!(w, "hp {} {} {} 2", to_hex(sb::LIST_5), to_hex(b"\x09\x08"), to_hex(&all)).unwrap();
+            // ports: every value of both port bytes behind a fixed address (endianness)
+            let mut p5 = sb::LIST_5.to_vec();
+            p5.extend_from_slice(&[10, 0, 0, 1]);
+            writeln!(w, "hp {} - {} 2", to_hex(&p5), to_hex(&all)).unwrap();
+            for h in [sb::LIST_6.to_vec(), tok(sb::LIST_7, 1, 9, &mut rng)] {
+                // list6 / list7: the IPv4-mapping prefix with its last two bytes, the address and
+                // the port swept (3^8 datagrams reach exactly one 18-byte record at length 8)
+                let mut p6 = h.clone();
+                p6.extend_from_slice(&sb::IPV4_MAPPING[..10]);
+                writeln!(w, "hp {} - 00ff01 8", to_hex(&p6)).unwrap();
+                // every single-byte deviation from the mapping prefix at each of its 12 positions
+                for pos in 0..12usize {
+                    let mut pre = h.clone();
+                    pre.extend_from_slice(&sb::IPV4_MAPPING[..pos]);
+                    let mut suf = sb::IPV4_MAPPING[pos + 1..].to_vec();
+                    suf.extend_from_slice(&[192, 168, 0, 1, 0x20, 0x6c]);
+                    writeln!(w, "hp {} {} 0001feff 1", to_hex(&pre), to_hex(&suf)).unwrap();
+                }
+                // port bytes, all values; record boundary: 0..3 extra bytes after one record, 17 bytes
+                let mut p = h.clone();
+                p.extend_from_slice(&sb::IPV4_MAPPING);
+                p.extend_from_slice(&[1, 2, 3, 4]);
+                writeln!(w, "hp {} - {} 2", to_hex(&p), to_hex(&all)).unwrap();
+                let mut q = h.clone();
+                q.extend_from_slice(&[0x20, 0x01, 0x0d, 0xb8, 0, 0, 0, 0, 0, 0, 0, 0, 0, 0, 0, 1]);
+                writeln!(w, "hp {} - 0001ff 5", to_hex(&q)).unwrap();
+            }
         }
 
         // ---- the four count fields jointly (every tuple over the boundary values), per kind
